@@ -145,11 +145,11 @@ func main() {
 				var res string
 				select {
 				case res = <-resc:
-				case <-time.After(opDeadline()):
+				case <-time.After(opDeadlineFor(toks)):
 					out.WriteString("hang\n")
 					out.Flush()
 					buf := make([]byte, 1<<20)
-					fmt.Fprintf(os.Stderr, "operation did not return within %s: %s\n%s\n", opDeadline(), line, buf[:runtime.Stack(buf, true)])
+					fmt.Fprintf(os.Stderr, "operation did not return within %s: %s\n%s\n", opDeadlineFor(toks), line, buf[:runtime.Stack(buf, true)])
 					os.Exit(3)
 				}
 				out.WriteString(res)
@@ -173,6 +173,16 @@ func opDeadline() time.Duration {
 		return time.Duration(v) * time.Second
 	}
 	return 300 * time.Second
+}
+
+// loops of thousands of rounds (conc hammer / conc first: they watch their own progress) get half an hour
+func opDeadlineFor(toks []string) time.Duration {
+	if len(toks) > 0 && (toks[0] == "hammer" || toks[0] == "first") {
+		if d := 6 * opDeadline(); d > 0 {
+			return d
+		}
+	}
+	return opDeadline()
 }
 
 func safeRun(st *stream, line string, toks []string) (res string) {
